@@ -387,40 +387,6 @@ Section OCalls.
     unfold PathEquiv.W, vol. cbn [app str_eqb]. rewrite N.eqb_refl. cbn [andb]. exact IH.
   Qed.
 
-  Lemma o_up_loop_volroot sw sl (O : orel sw sl) fw : o_up_loop fw sw (W []) = None.
-  Proof.
-    destruct fw as [|fw]; [reflexivity|]. cbn [o_up_loop]. rewrite (or_osw O).
-    assert (E : osplit Windows (W []) = Some ([d], [])) by reflexivity. rewrite E.
-    unfold ofind at 1. rewrite (or_index O), ikey_short.
-    destruct fw as [|fw]; [reflexivity|]. cbn [o_up_loop]. rewrite (or_osw O).
-    assert (E2 : osplit Windows [d] = None).
-    { unfold osplit. cbn. destruct (d_not_slash d Hd) as [H1 H2].
-      assert (Hs : is_slash d = false).
-      { unfold is_slash. destruct (N.eqb_spec d BSLASH); [contradiction|]. destruct (N.eqb_spec d SLASH); [contradiction|]. reflexivity. }
-      rewrite Hs. cbn. destruct (N.eqb_spec d BSLASH); [contradiction|]. destruct (N.eqb_spec d SLASH); [contradiction|]. reflexivity. }
-    rewrite E2. reflexivity.
-  Qed.
-
-  Lemma o_up_loop_sim sw sl (O : orel sw sl) : forall fl fw (q : str), okstr q -> rooted q ->
-    length q < fl -> length q < fw ->
-    match o_up_loop fw sw (W q), o_up_loop fl sl q with
-    | Some nw, Some nl => on_dir nw = on_dir nl
-    | None, None => True
-    | _, _ => False
-    end.
-  Proof.
-    induction fl as [|fl IH]; intros fw q Hok Hroot Hl Hw; [lia|]. destruct fw as [|fw]; [lia|].
-    cbn [o_up_loop]. rewrite (or_osw O), (or_osl O).
-    destruct (@osplit_W d q Hok Hroot) as (dl & fl' & E1 & E2 & (Hokd & Hkd) & _ & _ & Hlt & _). rewrite E1, E2.
-    pose proof (@ofind_W d sw sl dl O) as Hf.
-    destruct (ofind sw (W dl)) as [[iw nw]|]; destruct (ofind sl dl) as [[il nl]|]; try contradiction.
-    - apply Hf.
-    - destruct Hkd as [->|Hrd].
-      + rewrite (o_up_loop_volroot O). destruct fl; reflexivity.
-      + apply IH; [exact Hokd|exact Hrd|lia|lia].
-  Qed.
-
-
   Ltac use_abs sw sl r O Hok q Hoka Hra :=
     let Ea := fresh "Ea" in
     destruct (@oabs_W d Hd sw sl r O Hok) as (Ea & Hoka & Hra); rewrite Ea; clear Ea;
@@ -462,13 +428,7 @@ Section OCalls.
     - destruct Hpn as (_ & _ & _ & _ & Hdir). rewrite Hdir. destruct (negb (on_dir pnl)); [apply ocrel_fail, O|].
       destruct (@o_create_dir_sim sw sl O pl q fl perm (keyok_rooted Hoka Hra) (rooted_ne Hra) (conj Hmp Hokf)) as [O1 _].
       split; [exact O1|reflexivity].
-    - destruct Hkd as (Hokd & [->|Hrd]).
-      + rewrite (o_up_loop_volroot O). cbn [length]. cbn [o_up_loop]. rewrite (or_osl O).
-        change (osplit Linux []) with (@None (str * str)). apply ocrel_same, O.
-      + pose proof (@o_up_loop_sim sw sl O (S (length dl)) (S (length (W dl))) dl Hokd Hrd) as Hu.
-        rewrite (length_W d) in Hu. specialize (Hu ltac:(lia) ltac:(lia)). rewrite (length_W d).
-        destruct (o_up_loop (S (2 + length dl)) sw (W dl)); destruct (o_up_loop (S (length dl)) sl dl); try contradiction;
-          [apply ocrel_fail, O|apply ocrel_same, O].
+    - split; [exact O|]. cbn [snd]. apply o_enf_sim; [exact O|reflexivity|exact (keyok_rooted Hoka Hra)].
   Qed.
 
   (* ---- MkdirAll ----------------------------------------------------------------------------------- *)
@@ -485,18 +445,12 @@ Section OCalls.
     cbn [o_missing].
     use_find sw sl q O iw nw il nl Hi Hn.
     - destruct Hn as (_ & _ & _ & _ & Hdir). rewrite Hdir. destruct (on_dir nl); [auto|reflexivity].
-    - rewrite (or_osw O), (or_osl O). destruct Hq as (Hokq & [->|Hrq]).
-      + change (osplit Linux []) with (@None (str * str)).
-        assert (E : osplit Windows (W []) = Some ([d], [])) by reflexivity. rewrite E.
-        destruct fw as [|fw]; [reflexivity|]. cbn [o_missing].
-        unfold ofind at 1. rewrite (or_index O), ikey_short. rewrite (or_osw O).
-        assert (E2 : osplit Windows [d] = None).
-        { unfold osplit. cbn. destruct (d_not_slash d Hd) as [H1 H2].
-          assert (Hs : is_slash d = false).
-          { unfold is_slash. destruct (N.eqb_spec d BSLASH); [contradiction|]. destruct (N.eqb_spec d SLASH); [contradiction|]. reflexivity. }
-          rewrite Hs. cbn. destruct (N.eqb_spec d BSLASH); [contradiction|]. destruct (N.eqb_spec d SLASH); [contradiction|]. reflexivity. }
-        rewrite E2. reflexivity.
-      + use_split q Hokq Hrq dl fl' E1 E2 Hkd Hokf Hmp Hlt Hqeq. rewrite E1, E2.
+    - rewrite (or_osw O), (or_osl O), (vnl_W d), (length_W d). cbn [volume_name_len].
+      destruct Hq as (Hokq & [->|Hrq]).
+      + reflexivity.
+      + destruct Hrq as (r0 & ->). cbn [length Nat.leb Nat.add].
+        assert (Hrq : rooted (SLASH :: r0)) by (exists r0; reflexivity).
+        set (q := SLASH :: r0) in *. use_split q Hokq Hrq dl fl' E1 E2 Hkd Hokf Hmp Hlt Hqeq. rewrite E1, E2.
         replace (map W ds ++ [W q]) with (map W (ds ++ [q])) by (rewrite map_app; reflexivity).
         apply IH; [exact Hkd| |lia|lia]. apply Forall_app. split; [exact Hds|constructor; [split; assumption|constructor]].
   Qed.
